@@ -25,7 +25,7 @@ PROPS["C02"] = {
              "active / idle / paused-application-reader / paused-target-reader / closing in mid-transfer (either side) / asking for a channel the server refuses, payloads, write partitions, socket-buffer bounds, delivery "
              "chunking and (1 run in 8) a write-completion stall on the client's physical link while a stream is being opened; "
              "non-trivial = all non-paused connections completed while the others were still open (>= 2 open at once); distinct = schedule shapes"),
-    "probes": ["concurrent_worlds_completed", "fault_write_stall_armed", "fault_segmentation"],
+    "probes": ["concurrent_worlds_completed", "heavy_paused_reader", "fault_write_stall_armed", "fault_segmentation"],
     "technique": "deterministic simulation: seeded search over interleavings of k concurrent logical connections, per-connection PRF attribution, bounded-progress oracle",
     "level_text": ("Seeded exploration of interleavings: the driver decides the order of opens, writes, pauses and every delivery across k connections sharing "
                    "one session; isolation is decided by per-connection PRF streams (a foreign byte is attributed to its owner), independence by "
@@ -61,7 +61,7 @@ PROPS["C17"] = {
     "rule": ("each run draws carrier x security x closer (application or target) x payload written before the close (0 bytes .. tier cap, boundary sizes) x write partition x "
              "whether the other side writes too x 0-2 background connections x socket-buffer bound x delivery chunking; the close is an ordinary driver event, so it races the "
              "last write's frames, the FIN and the opposite direction freely; non-trivial = the close took effect and the other end's outcome was judged; distinct = schedule shapes"),
-    "probes": ["closes_observed", "clean_eof", "fault_segmentation"],
+    "probes": ["closes_observed", "clean_eof", "runs_with_think_time", "runs_with_closing_neighbour", "fault_segmentation"],
     "technique": "deterministic simulation: seeded search over close/last-write/FIN orderings per carrier, all-bytes-then-EOF oracle with bounded termination",
     "level_text": ("Seeded exploration: the non-closing end must read exactly the PRF stream the closer wrote and then end-of-stream, within 10 simulated minutes (30 over DNS) and never "
                    "sit 90 s with nothing deliverable; a shorter stream, an error instead of end-of-stream, or no termination are distinct rules."),
@@ -96,7 +96,7 @@ PROPS["C15"] = {
              "garbage then silent} x endpoint kind {tcp, unix, tcp+tls, ws, wss, udp/KCP, dns+udp, dns+tcp} (87 meaningful cells) is enumerated completely by run index; per run the number "
              "of stallers (1-3), of well-behaved clients (1-3, each a separate client command), their arrival order and every delivery are sampled; non-trivial = every well-behaved "
              "client finished while the stallers stayed connected; distinct = schedule shapes"),
-    "probes": ["stallers_started", "good_clients_served"],
+    "probes": ["stallers_started", "late_arrivals", "fault_staller_host_vanished", "good_clients_served"],
     "technique": "deterministic simulation: enumerated stall faults by scripted peers at every handshake step and endpoint kind, sampled arrivals, bounded-latency oracle for well-behaved clients",
     "level_text": ("Fault enumeration: the finite table of stall points, behaviours and endpoint kinds is covered completely (several runs per cell with different arrivals and counts); each "
                    "well-behaved client must complete handshake and a 1 KiB exchange within 60 simulated seconds of connecting while the stalled peers remain connected."),
